@@ -55,6 +55,8 @@ type caseInput struct {
 	Mutations  []string `json:"mutations,omitempty"`
 	UseDrcMain bool     `json:"-"`
 	gen        *genState
+	// the target the generator meant, as one file (set when parts of it were moved to a raw / IPv6 file)
+	expectText string
 }
 
 // genState lets a generated case be continued (chainCase).
@@ -1153,7 +1155,7 @@ func genCase(rng *RNG) caseInput {
 	}
 	// raw / IPv6 parts: a prefix of the rules is prepended from raw or ipv6, a suffix appended
 	// with <APPEND/>.
-	var raw, v6 []gVsys
+	var raw, v6, expect []gVsys
 	if rng.Chance(22) && len(tgt) > 0 {
 		t := &tgt[0]
 		part := gVsys{Name: t.Name}
@@ -1193,6 +1195,21 @@ func genCase(rng *RNG) caseInput {
 			v6 = append(v6, part)
 			w.note("ipv6Part")
 		}
+		// what the merged target must be: rules of the part without <APPEND/> in front, those with it
+		// at the end, objects of the part added
+		e := cloneVsys(*t)
+		var front, back []gRule
+		for _, r := range part.Rules {
+			if r.Append {
+				r.Append = false
+				back = append(back, r)
+			} else {
+				front = append(front, r)
+			}
+		}
+		e.Rules = append(append(front, e.Rules...), back...)
+		e.Addrs = append(e.Addrs, part.Addrs...)
+		expect = append([]gVsys{e}, tgt[1:]...)
 	}
 	in.Dev = configXML(devName, dev, rng.Chance(30))
 	tgtDev := devName
@@ -1203,6 +1220,9 @@ func genCase(rng *RNG) caseInput {
 		tgtDev = ""
 	}
 	in.Spoc = configXML(tgtDev, tgt, false)
+	if expect != nil {
+		in.expectText = configXML(tgtDev, expect, false)
+	}
 	if raw != nil {
 		in.Raw = configXML("", raw, false)
 	}
